@@ -16,6 +16,7 @@ import (
 
 	"golang.org/x/perf/benchfmt"
 	"pgregory.net/rapid"
+	"verif/harness/lib/refbench"
 	"verif/harness/lib/vcase"
 )
 
@@ -25,7 +26,21 @@ type Case struct {
 	Hex   string // hex of the bytes of Txt
 	Where string // "value" or "iters"
 	Gen   string // which generator produced it (label only)
+	Unit  string // the unit written after the value ("" = "u"); always one that needs no rescaling
+	Prior string // a unit read (by another reader) just before; "" = none. It rescales into Unit.
 }
+
+func (c Case) unit() string {
+	if c.Unit == "" {
+		return "u"
+	}
+	return c.Unit
+}
+
+// noRescale lists units that need no rescaling, each with a unit whose
+// normalised form it is: reading the latter first is a history in which the
+// process-wide unit cache already knows the former as somebody's base unit.
+var noRescale = [][2]string{{"u", ""}, {"u", "ns"}, {"sec/op", "ns/op"}, {"B/s", "MB/s"}, {"sec/ns", "ns/ns"}, {"B/MB", "MB/MB"}, {"sec/MB", "ns/MB"}, {"B/ns", "MB/ns"}, {"B*sec/ns", "MB*ns/ns"}, {"widgets/MB", ""}, {"nsec", ""}}
 
 func mk(txt, where, gen string) Case {
 	return Case{Txt: txt, Hex: fmt.Sprintf("%x", txt), Where: where, Gen: gen}
@@ -115,7 +130,19 @@ func Check(c Case) (v vcase.Verdict) {
 				want, err = bw, nil
 			}
 		}
-		o := read("BenchmarkX 1 " + txt + " u\n")
+		unit := c.unit()
+		if base, e10, _ := refbench.TidyUnit(unit); base != unit || e10 != 0 {
+			v.Failf("VERIF-BROKEN: unit %q needs rescaling", unit)
+			return
+		}
+		if c.Prior != "" {
+			read("BenchmarkW 1 1 " + c.Prior + "\n")
+			v.Label("prior_unit")
+		}
+		if unit != "u" {
+			v.Label("unit_with_components")
+		}
+		o := read("BenchmarkX 1 " + txt + " " + unit + "\n")
 		if err == nil {
 			plain := len(txt) <= 15 && strings.Trim(txt, "0123456789") == ""
 			v.NonTrivial = !plain
@@ -131,7 +158,7 @@ func Check(c Case) (v vcase.Verdict) {
 			if math.Float64bits(o.val) != math.Float64bits(want) && !(math.IsNaN(want) && math.IsNaN(o.val)) {
 				v.Failf("value %q: reader %v (%#x) != strconv %v (%#x)", txt, o.val, math.Float64bits(o.val), want, math.Float64bits(want))
 			}
-			if o.unit != "u" || o.iters != 1 || o.line != 1 { // OrigUnit is C04's business
+			if o.unit != unit || o.iters != 1 || o.line != 1 { // OrigUnit is C04's business
 				v.Failf("value %q: unit %q orig %q iters %d line %d", txt, o.unit, o.origUnit, o.iters, o.line)
 			}
 		} else {
@@ -595,7 +622,15 @@ func Gen(t *rapid.T) Case {
 		txt = "1" // keep the case inside the domain by construction
 		gen = "fallback"
 	}
-	return mk(txt, where, gen)
+	c := mk(txt, where, gen)
+	if where == "value" && rapid.IntRange(0, 3).Draw(t, "unitkind") == 0 {
+		pr := rapid.SampledFrom(noRescale).Draw(t, "unit")
+		c.Unit = pr[0]
+		if rapid.Bool().Draw(t, "prior") {
+			c.Prior = pr[1]
+		}
+	}
+	return c
 }
 
 func hasSpaceBytes(s string) bool {
